@@ -570,6 +570,36 @@ def p4b_answer_only_via_lifecycle(C, rep, rid):
             rep.ob(rid, ok, H.fn, "response after the lock is the lifecycle's", where=site[2], how=show(a)[:70], detail="" if ok else "after the lock the handler returns %s" % show(a)[:100])
 
 
+def q_request_fields_verbatim(C, rep, rid):
+    rep.rule(rid, "the amounts, expiries and declared total of an HTLC are the values of the hook's JSON: the generated Deserialize code of HtlcAcceptedRequest / Htlc / Onion calls no hand-written conversion (`deserialize_with`, `from`, `try_from`, `default = ..`) for a numeric field")
+    F = C.F
+    rx = re.compile(r"Deserialize<'de> for messages::(Onion|Htlc|HtlcAcceptedRequest)>")
+    bodies = [b for k, b in F.by_cdef.items() if rx.search(k)]
+    rep.anchor(rid, "generated Deserialize bodies of the request types", len(bodies), 9)
+    bad = []
+    for b in bodies:
+        for c in b.calls:
+            n = c.resolved or c.name
+            if "_serde" in n or "::_::" in n or n.startswith("<"):
+                continue
+            if n.split("::")[0] in ("messages", "htlc_manager", "tlv", "plugin") and (n in F.by_cdef or n in F.fns):
+                cb = F.by_cdef.get(n)
+                if cb is not None and (cb.span.get("mac") or []):
+                    continue
+                bad.append((b, c, n))
+    rep.ob(rid, not bad, "messages", "request fields are deserialised as they are", where=bad[0][1].loc if bad else "", how="no hand-written conversion in the generated code",
+           detail="" if not bad else "the field deserialiser calls %s: the value the gates see (amount, expiry, declared total) is not the one in the hook's JSON" % bad[0][2])
+    # the numeric fields keep serde's plain types
+    a_on, a_ht = F.adts.get("messages::Onion"), F.adts.get("messages::Htlc")
+    n = 0
+    for a in (a_on, a_ht):
+        if a and a.get("variants"):
+            for f in a["variants"][0]["fields"]:
+                if re.match(r"^(std::option::Option<)?[ui](8|16|32|64)>?$", f["ty"]):
+                    n += 1
+    rep.anchor(rid, "numeric fields of Onion / Htlc", n, 4)
+
+
 def u5_no_individual_rejection(C, rep, rid):
     rep.rule(rid, "a failure answered to one HTLC directly (by the classification or by the handler before the table entry is taken) does not depend on that HTLC's own amount, expiry or declared total: such rejections go through the set's fail request so that every held part receives it")
     F, X, A = C.F, C.X, C.A
@@ -1128,6 +1158,21 @@ def l2_no_shared_blocking_state(C, rep, rid):
             for f in v["fields"]:
                 ok = not LOCKISH.search(f["ty"]) and "cln_rpc::ClnRpc" not in f["ty"]
                 rep.ob(rid, ok, adt, "field %s: %s" % (f["n"], f["ty"][:50]), how="no lock/channel/connection type", detail="" if ok else "%s::%s has type %s: payments of different hashes would share it" % (adt, f["n"], f["ty"]))
+    # no admission control anywhere: a pool of permits shared by all payment hashes (lifecycles, hook callbacks, RPCs) makes one
+    # hash wait for others once the pool is exhausted
+    nadt = 0
+    for name, a in sorted(F.adts.items()):
+        if "::test" in name or name.split("::")[-1].startswith("Mock") or not name.split("::")[0] in ("htlc_manager", "cln_plugin", "plugin", "rpc", "store", "payment_provider", "block_watcher", "messages", "email", "tlv"):
+            continue
+        nadt += 1
+        for v in a.get("variants", []):
+            for f in v.get("fields", []):
+                bad = re.search(r"Semaphore|Barrier", f["ty"])
+                if bad:
+                    rep.ob(rid, False, name, "no permit pool", detail="%s::%s has type %s: a bounded pool of permits shared by all payments - once it is exhausted (by parked trampoline HTLCs, long-running pays) every other payment and every plain forward waits for them" % (name, f["n"], f["ty"]))
+    rep.anchor(rid, "ADTs of the crate scanned for permit pools", nadt, 20)
+    acq = [c for b in F.code_bodies() for c in b.calls if re.match(r"^tokio::sync::Semaphore::(acquire|acquire_owned|acquire_many|acquire_many_owned|try_acquire|try_acquire_owned)$", c.name) and not c.noise]
+    rep.ob(rid, not acq, "crate", "no semaphore acquisition", where=acq[0].loc if acq else "", how="none", detail="" if not acq else "%s at %s: work for one payment hash queues behind permits held for others" % (acq[0].name, acq[0].loc))
     # per-call connection
     n = 0
     for imp in F.impls:
